@@ -21,10 +21,6 @@ INDEX_ERRORS = {"IndexError", "LookupError", "Exception", "BaseException"}
 
 # (function short name, alpha-normalised subscript) -> reason.  Reviewed by reading the code (DESIGN 4/C01).
 EXEMPT: dict[tuple[str, str], str] = {
-    ("heading", "state.src[L_skipCharsStrBack___ - 1]"):
-        "result of skipCharsStrBack(skipSpacesBack(maximum, pos), '#', pos) lies in [pos, maximum] and the read is guarded by tmp > pos, so pos <= tmp-1 < maximum",
-    ("list_block", "state.src[L_skipBulletListMarker_____skipOrderedListMarker___ - 1]"):
-        "posAfterMarker is the position just after a marker character that the marker scanner has read (>= 1 and <= eMarks)",
     ("StateBlock.skipSpacesBack", "self.src[P1]"):
         "callers pass pos <= len(src); the loop decrements before reading (pos -= 1 precedes the read)",
     ("StateBlock.skipCharsStrBack", "self.src[P1]"):
@@ -34,6 +30,62 @@ EXEMPT: dict[tuple[str, str], str] = {
     ("ParserInline.tokenize", "state.src[state.pos]"):
         "fallback after every rule returned False: by IR-2 no rule moved pos/posMax, so pos is what the loop condition tested",
 }
+
+
+# Exemptions stated by provenance: the index is `x + offset` where every definition of x in the function is a call of one of
+# the named scanners (possibly through a local alias of the scanner), and the string is the source.  Robust to renaming,
+# to a local alias of the source and to extraction into a helper of the same module.
+PROV_EXEMPT: list[tuple[str, frozenset[str], int, str]] = [
+    ("rules_block/heading.py", frozenset({"skipCharsStrBack"}), -1,
+     "result of skipCharsStrBack(skipSpacesBack(maximum, pos), '#', pos) lies in [pos, maximum] and the read is guarded by tmp > pos, so pos <= tmp-1 < maximum"),
+    ("rules_block/list.py", frozenset({"skipBulletListMarker", "skipOrderedListMarker"}), -1,
+     "posAfterMarker is the position just after a marker character that the marker scanner has read (>= 1 and <= eMarks)"),
+]
+
+
+def _callee_names(bounds: "Bounds", fn: ast.AST, depth: int = 0) -> set[str] | None:
+    """Names a called expression may denote: a function name / method name, or a local alias bound to such names."""
+    if isinstance(fn, ast.Attribute):
+        return {fn.attr}
+    if isinstance(fn, ast.IfExp):
+        a, b = _callee_names(bounds, fn.body, depth), _callee_names(bounds, fn.orelse, depth)
+        return None if a is None or b is None else a | b
+    if isinstance(fn, ast.Name):
+        ds = bounds.defs.get(fn.id)
+        if not ds:
+            return {fn.id}
+        if depth > 3 or any(d is None for d in ds):
+            return None
+        out: set[str] = set()
+        for d in ds:
+            sub = _callee_names(bounds, d, depth + 1)          # type: ignore[arg-type]
+            if sub is None:
+                return None
+            out |= sub
+        return out
+    return None
+
+
+def _prov_exempt(f: Func, bounds: "Bounds", s: ast.Subscript) -> str:
+    l = lin(s.slice)
+    if l is None or l[0] is None:
+        return ""
+    strx = bounds.canon(s.value)
+    if not (isinstance(strx, ast.Attribute) and strx.attr == "src"):
+        return ""
+    ds = bounds.defs.get(l[0])
+    if not ds or any(d is None or not isinstance(d, ast.Call) for d in ds):
+        return ""
+    prov: set[str] = set()
+    for d in ds:
+        names = _callee_names(bounds, d.func)          # type: ignore[union-attr]
+        if names is None:
+            return ""
+        prov |= names
+    for (rel, allowed, off, why) in PROV_EXEMPT:
+        if f.module.rel == rel and prov and prov <= allowed and l[1] == off:
+            return why
+    return ""
 
 
 def _in_try_indexerror(f: Func, node: ast.AST) -> bool:
@@ -571,6 +623,7 @@ def rule_bnd(c: Ctx, wide: bool = False) -> RuleResult:
                    ", ".join(f"'{k}'={'yes' if v else 'no'}" for k, v in sorted(chains_ok.items())))
     r.notes.append("block rules with the non-blank entry contract: " + ", ".join(sorted(f.short for f in blk)))
     used_exempt: set[tuple[str, str]] = set()
+    used_prov: set[str] = set()
     n_sites = 0
     for f in sorted(phase, key=lambda x: x.qual):
         subs = [s for s in own_nodes(f.node) if isinstance(s, ast.Subscript) and _is_source_string(c, f, s)]
@@ -608,6 +661,11 @@ def rule_bnd(c: Ctx, wide: bool = False) -> RuleResult:
             if how:
                 r.add(key, where, f.short, U(s), "discharged", how)
                 continue
+            why = _prov_exempt(f, bounds, s)
+            if why:
+                used_prov.add(why)
+                r.add(key, where, f.short, U(s), "exempt", why)
+                continue
             ek = (f.short, alpha(f, s))
             if ek not in EXEMPT:
                 # the same construct moved into a helper of the same module (extract-method refactoring)
@@ -622,6 +680,9 @@ def rule_bnd(c: Ctx, wide: bool = False) -> RuleResult:
                   f"no bound established for index `{U(s.slice)}` of `{U(s.value)}` on some path: not inside try/except IndexError, "
                   f"no dominating comparison with a bound of the string (len / posMax / eMarks[..]), no entry contract, no exemption "
                   f"(alpha key: {ek[1]})")
+    for (rel, allowed, off, why) in PROV_EXEMPT:
+        if why not in used_prov:
+            r.notes.append(f"unused exemption {rel} {sorted(allowed)} (the construct it describes is no longer present in this form)")
     for ek in EXEMPT:
         if ek not in used_exempt:
             r.notes.append(f"unused exemption {ek} (the construct it describes is no longer present in this form)")
